@@ -1350,6 +1350,42 @@ Proof.
     destruct (forallb small_int nums); [apply bpost_of_alloc_str; auto | exact I].
 Qed.
 
+(* every argument of a variadic `any` parameter list is an any-cell *)
+Lemma variadic_any_typed (S : sty) vals ts :
+  forallb (arg_ok TAny) ts = true -> Forall2 (fun l t => sfind S l = Some t) vals ts ->
+  Forall (fun l => sfind S l = Some TAny) vals.
+Proof.
+  intros Hall HF. induction HF as [|l t ls ts' Hl _ IH]; cbn [forallb] in Hall; constructor;
+    apply andb_true_iff in Hall as [H1 H2]; auto.
+  apply arg_ok_basic in H1; [congruence|discriminate|discriminate].
+Qed.
+
+Lemma show_str_wp S s l t :
+  heap_ok S (st_heap s) -> sfind S l = Some t -> wp (show_str l s) (fun _ s' => s' = s).
+Proof.
+  intros Hh Hl. unfold show_str. unfold bindM at 1. unfold depth_fuel at 1.
+  wbind ltac:(eapply show_wp; eauto using deep_ok_value). intros p s1 ->.
+  destruct (pieces_str p); [reflexivity|exact I].
+Qed.
+
+(* the operands of sprintf / printf: every argument is an any-cell; its content is read (a composite
+   one is printed by String()), nothing is written *)
+Lemma fmt_args_wp S s rest :
+  heap_ok S (st_heap s) -> Forall (fun l => sfind S l = Some TAny) rest ->
+  wp (mapM (fun a => let* v := unwrap_any a in
+                     match v with
+                     | HNum x => ret (Builtins.FNum x)
+                     | HStr x => ret (Builtins.FStr x)
+                     | HBool b => ret (Builtins.FBool b)
+                     | _ => let* x := show_str a in ret (Builtins.FStr x)
+                     end) rest s) (fun _ s' => s' = s).
+Proof.
+  intros Hh Hall. apply mapM_pure. intros a Ha. rewrite Forall_forall in Hall. specialize (Hall a Ha).
+  wbind ltac:(eapply unwrap_any_wp; eauto). intros v s1 ->.
+  destruct v; try reflexivity;
+    (wbind ltac:(eapply show_str_wp; eauto); intros x s1 ->; reflexivity).
+Qed.
+
 Lemma builtin_sound P S G e s name vals m sg ts :
   builtin name e vals = Some m -> mem_str name s1_builtins = true -> builtin_sig name = Some sg ->
   sig_args_ok sg ts = true -> Forall2 (fun l t => sfind S l = Some t) vals ts ->
@@ -1438,6 +1474,27 @@ Proof.
       apply bpost_of_alloc_num; auto.
   - (* abs *) sig1 Hok HF. load_n. apply bpost_of_alloc_num; auto.
   - (* sqrt *) sig1 Hok HF. load_n. apply bpost_of_alloc_num; auto.
+  - (* sprintf: a missing or non-string format is the evy panic "bad arguments"; what fmt.Sprintf
+       would compute with float formatting or %q quoting is ENeedOracle *)
+    unfold sig_args_ok in Hok; cbn [fs_var fs_params] in Hok.
+    pose proof (variadic_any_typed _ _ _ Hok HF) as Hany.
+    destruct vals as [|fa rest]; [exact I|]. inversion Hany as [|? ? Hfa Hrest]; subst.
+    wbind ltac:(eapply unwrap_any_wp; eauto). intros fv s1 ->.
+    destruct fv; try exact I.
+    wbind ltac:(eapply fmt_args_wp; eauto). intros fargs s1 ->.
+    destruct (forallb fmt_decidable fargs); [|exact I].
+    lazymatch goal with |- wp (match ?c with Some _ => _ | None => _ end _) _ => destruct c end; [|exact I].
+    apply bpost_of_alloc_str; auto.
+  - (* printf *)
+    unfold sig_args_ok in Hok; cbn [fs_var fs_params] in Hok.
+    pose proof (variadic_any_typed _ _ _ Hok HF) as Hany.
+    destruct vals as [|fa rest]; [exact I|]. inversion Hany as [|? ? Hfa Hrest]; subst.
+    wbind ltac:(eapply unwrap_any_wp; eauto). intros fv s1 ->.
+    destruct fv; try exact I.
+    wbind ltac:(eapply fmt_args_wp; eauto). intros fargs s1 ->.
+    destruct (forallb fmt_decidable fargs); [|exact I].
+    lazymatch goal with |- wp (match ?c with Some _ => _ | None => _ end _) _ => destruct c end; [|exact I].
+    apply emit_none_bpost; auto.
   - (* graphics *)
     destruct (existsb (str_eqb name) gfx_num_names) eqn:E1.
     { injection Hb as <-. apply existsb_exists in E1 as (x & Hin & Hx). apply str_eqb_eq in Hx; subst x.
